@@ -4,7 +4,7 @@ import json, os
 HERE = os.path.dirname(os.path.abspath(__file__)); VERIF = os.path.dirname(HERE)
 NOTE = ('trusted: clang++-14 front end + fixed IR pipeline, tools/ir2c.py (IR->C, must-fire), prelude headers, CBMC 6.11; GCC code generation and '
         'strict-aliasing UB not modelled; the set of instantiations (shapes, patterns, configurations) is enumerated, element values are universally quantified')
-ENABLED = ['C01', 'C02', 'C03', 'C07', 'C08', 'C09', 'C11', 'C13', 'C14', 'C15', 'C17', 'C18', 'C19']
+ENABLED = ['C01', 'C02', 'C03', 'C04', 'C05', 'C06', 'C07', 'C08', 'C09', 'C11', 'C13', 'C14', 'C15', 'C16', 'C17', 'C18', 'C19', 'C20']
 DFCC = 'CBMC code contracts (goto-instrument --dfcc --enforce-contract) on clang-IR-extracted Fastor entry points'
 CHECKS = {
  'C01': dict(text='For every enumerated (M,K,N), element type (int32, float, double), API form (matmul on maps / owning tensors, lazy %, matrix-vector, vector-matrix), ISA, standard and block-size macro: the contract "every result element equals sum_k A(i,k)*B(k,j), nothing else written, no access outside the operands" is enforced on the translated real code (goto-instrument --dfcc) and discharged by CBMC in ATOMS mode: the kernel provably evaluates the Einstein polynomial with each product exactly once; exact for integer-valued data. The floating-point rounding bound of the property is NOT machine-checked.',
@@ -23,6 +23,14 @@ CHECKS = {
              technique=DFCC + ', symbolic data and symbolic index vectors', ref='5 (C18), 9'),
  'C19': dict(text='Index tensors as symbolic in-range buffers (duplicate-free by requires for writes), parents <= 16 elements, int/int64/size_t indices: reads return the indexed elements in index order (repeats allowed), per-axis and mixed forms; writes update exactly the indexed positions; boolean masks as symbolic buffers (all 2^n masks at once): exactly the true positions are updated with the element at the same position, all others unchanged.',
              technique=DFCC + ', symbolic data, symbolic gather/scatter addresses', ref='5 (C19), 9'),
+ 'C04': dict(text='Scalar indexing with symbolic indices over the whole admissible range incl. negative (count-from-the-end) values, ranks 1-5; slices from dynamic seq triples (every triple in three encodings for small extents, covering sets beyond), compile-time fseq/iseq, all/first/last/fix and mixtures, ranks 1-4, last-axis extents around every vector width, alone and inside expressions: result element (j0..jk) == A(first0+j0*step0, ...) and every result extent == ceil((last-first)/step), for all element values. Dynamic ranges are enumerated, element values universally quantified.',
+             technique=DFCC + ', symbolic data and symbolic indices (SYM; UF for float expressions)', ref='5 (C04), 9'),
+ 'C05': dict(text='All destination range families of C04, operators = += -= (int: SYM) and all five (float: UF), right-hand sides scalar / tensor / slice of another tensor / expression / expression needing evaluation, with and without FASTOR_USE_VECTORISED_EXPR_ASSIGN, sequences of 2-3 writes, symbolic-index element assignment: every selected element == old op rhs, every unselected element of A bit-for-bit unchanged (neighbouring sub-ranges in one buffer act as guards), nothing outside A written (assigns clause / pointer checks).',
+             technique=DFCC + ', symbolic data (SYM) / uninterpreted float arithmetic (UF); frame = assigns clause + unchanged-element clauses', ref='5 (C05), 9'),
+ 'C16': dict(text='sum / trace (ATOMS linear mode, all sizes 1..2V+3; int32 also with real adders), min / max (SYM over the full value domain: result is an element and bounds all elements; floats without NaN), all_of / any_of / none_of / isequal / issymmetric (SYM / UF), inner and norm (ATOMS; for norm the radicand is proved and sqrt is opaque), product (n <= 9) and closed-form determinant n = 2..4 by TAGS+BASIS (proof for all values), larger product / expression arguments as bounded B01 (counted separately). Rounding bounds, LU/QR-based determinants and isorthogonal are not decided.',
+             technique=DFCC + '; SYM / UF / ATOMS / TAGS+BASIS per function', ref='5 (C16), 9'),
+ 'C20': dict(text='TensorMap over base+d (d = 0..3 elements) against an owning tensor under programs of 2-4 operations with frame clauses; alternating writes through a tensor and its reshape / flatten / squeeze / map views with visibility both ways; every same-size reshape target of rank <= 3; tocolumnmajor / torowmajor place element (i0..ik) at the column-major offset and compose to the identity (ranks 1-4); constructors from pointer, std::array, initializer lists in both layouts: all as element-wise contracts for all element values (SYM). std::vector constructor (allocates) excluded.',
+             technique=DFCC + ', symbolic data (SYM)', ref='5 (C20), 9'),
  'C07': dict(text='Memory-safety, frame, alignment and no-allocation obligations (pointer/bounds checks on exact-extent objects, assigns clause, alignment assertion on every over-aligned vector access, operator-new stub) for operations through TensorMap over a misaligned buffer flush against the end of its object, for runtime-checked indexing with symbolic out-of-range indices (normal exit implies index in range), and safety-only contracts for inverse/det/lu/qr/solve; for all element and index values. The same obligations are part of every unit of every other property.',
              technique=DFCC + '; pointer/assigns/alignment obligations, symbolic indices', ref='5 (C07), 9'),
  'C11': dict(text='Exact clauses only: L unit lower triangular (zeros above the diagonal, ones on it, bit-exact), U upper triangular, returned permutation (vector and matrix form) is a bijection, frame; for all inputs, per (size, strategy, type, ISA), float arithmetic uninterpreted. The backward-error bound ||LU-PA|| and reconstruct() are NOT decided.',
